@@ -20,7 +20,7 @@ def main():
     keep = sys.argv[sys.argv.index('--keep-as') + 1] if '--keep-as' in sys.argv else None
     patch = f'{d}/patch.diff'
     ran = []
-    wt = '/tmp/seed/confirm-wt'   # reused between runs (warm target dir); remove with `git -C /repo worktree remove --force` when done
+    wt = os.environ.get('SEED_WT', '/tmp/seed/confirm-wt')   # reused between runs (warm target dir); remove with `git -C /repo worktree remove --force` when done
     res = {'property': prop, 'dir': d}
     try:
         if not os.path.exists(wt):
